@@ -38,6 +38,14 @@ PROPS = {
     "C01": dict(test="TestC01", level="exploration", runs=[("", "plain", 16)], timeout=(900, 5400), floor=(2000, 200),
                 rule="case = generated (config, relationships, 6 queries) x modes {ast-default, opl-default, opl-strict} x insertion orders/schedules; "
                      "non-trivial = the reference needed more than the direct lookup AND the engine issued >= 2 storage calls; distinct by (case, mode, query)"),
+    # C13: mode "" = every REST route / gRPC method with one named mutation per request, except the requests whose mutated part is
+    # consumed on an unrecovered worker goroutine (batch-check tuple elements); mode "fatal" = only those, in many tiny children,
+    # because a process-fatal input costs the whole child (only complete results are counted).
+    "C13": dict(test="TestC13", level="exploration", runs=[("", "plain", 32), ("fatal", "plain", 64)], timeout=(900, 5400), floor=(15000, 250),
+                rule="case = one request (REST through the real routers parsed by net/http's request reader, gRPC through the real in-process servers and "
+                     "again by calling the handler method directly) derived from the OpenAPI/proto shape of a route and changed by ONE named mutation, "
+                     "against a registry holding 3-8 relationships; evaluation = one request answered and judged (panic, status class, state dump, 2xx body shape); "
+                     "non-trivial = the request was dispatched to a keto handler (not answered by httprouter/net/http itself); distinct by (route, mutation class, answer class)"),
 }
 
 ASSUMPTIONS_COMMON = [
